@@ -24,11 +24,20 @@ from vkit.vtime import VirtualDeadlock, run_virtual
 # ------------------------------------------------------------------ type / value pool
 
 
-class T0:
+class _MaybeFalsy:
+    """about a third of the resource values are falsy objects (think of an empty registry or mapping)"""
+
+    truth = True
+
+    def __bool__(self) -> bool:
+        return self.truth
+
+
+class T0(_MaybeFalsy):
     pass
 
 
-class T1:
+class T1(_MaybeFalsy):
     pass
 
 
@@ -36,15 +45,15 @@ class T1sub(T1):
     pass
 
 
-class T2:
+class T2(_MaybeFalsy):
     pass
 
 
-class T3:
+class T3(_MaybeFalsy):
     pass
 
 
-class T4:
+class T4(_MaybeFalsy):
     pass
 
 
@@ -84,6 +93,7 @@ def make_value(type_idx: int, tag: Any) -> Any:
     # explicit `types`, its value can be anything)
     v = POOL[type_idx if type_idx < Pool.N_CLASSES else 0]()
     v.tag = tag
+    v.truth = (tag[1] % 3 != 0) if isinstance(tag, tuple) and isinstance(tag[1], int) else True
     return v
 
 
@@ -94,6 +104,9 @@ class FactoryFailed(Exception):
 class Product:
     def __init__(self, fid: int, serial: int) -> None:
         self.fid, self.serial = fid, serial
+
+    def __bool__(self) -> bool:
+        return self.fid % 3 != 0
 
     def __repr__(self) -> str:
         return f"Product(f{self.fid}#{self.serial})"
